@@ -252,7 +252,14 @@ func runGated(c *C15Case, st *Stats) error {
 // C04 watchdog the clock can only turn a hang into a report).
 func runMapAsync(c *C15Case, st *Stats) error {
 	done := make(chan error, 1)
-	go func() { done <- runMapAsyncInner(c, st) }()
+	go func() {
+		defer func() {
+			if r := recover(); r != nil {
+				done <- errf("MapAsync / Map panicked (n=%d, object=%v): %v", c.N, c.Object, r)
+			}
+		}()
+		done <- runMapAsyncInner(c, st)
+	}()
 	select {
 	case err := <-done:
 		return err
@@ -455,7 +462,9 @@ func readOpList(l, other at.List, op string, salt int) string {
 			r = fpValue(l.GetTF(fmt.Sprintf("#%d", idx)))
 		}
 	case "TypeOfTF":
-		r = l.TypeOfTF(fmt.Sprintf("#%d", idx))
+		// a spelling of the index that varies from call to call (leading zeros in hex notation): the
+		// result must be the same concurrently and sequentially, whatever the library makes of it
+		r = l.TypeOfTF(fmt.Sprintf("#0x%0*x", 1+salt%23, idx))
 	case "Sum":
 		r = l.Sum()
 	case "Min":
@@ -632,18 +641,10 @@ func runReaders(c *C15Case, st *Stats) error {
 		return func(op string, salt int) string { return readOpList(l, other, op, salt) }
 	}
 	runSeq, run := mk(), mk()
-	// sequential reference results
-	want := make([][]string, len(c.Readers))
-	for g, ops := range c.Readers {
-		for j, op := range ops {
-			var fp string
-			if p, panicked := catch(func() { fp = runSeq(op, g*7+j) }); panicked {
-				return errf("read-only operation %s panicked sequentially: %v", op, p)
-			}
-			want[g] = append(want[g], fp)
-		}
-	}
-	// concurrent execution, released together
+	// The concurrent phase runs FIRST, on the container nothing has touched, so that state the library
+	// initialises lazily (inside the container or at package level, e.g. memo tables keyed by the
+	// spelling of an index) is first exercised by the concurrent readers; the sequential reference is
+	// computed afterwards on the twin.
 	got := make([][]string, len(c.Readers))
 	panics := make([]any, len(c.Readers))
 	start := make(chan struct{})
@@ -665,6 +666,16 @@ func runReaders(c *C15Case, st *Stats) error {
 	}
 	close(start)
 	wg.Wait()
+	want := make([][]string, len(c.Readers))
+	for g, ops := range c.Readers {
+		for j, op := range ops {
+			var fp string
+			if p, panicked := catch(func() { fp = runSeq(op, g*7+j) }); panicked {
+				return errf("read-only operation %s panicked sequentially: %v", op, p)
+			}
+			want[g] = append(want[g], fp)
+		}
+	}
 	allocating := 0
 	for g := range c.Readers {
 		if panics[g] != nil {
